@@ -3,7 +3,6 @@ use std::{collections::HashMap, fmt::Write};
 use crate::registry::{Deprecation, MetaField, MetaInputValue, MetaType, Registry};
 
 const SYSTEM_SCALARS: &[&str] = &["Int", "Float", "String", "Boolean", "ID"];
-const FEDERATION_SCALARS: &[&str] = &["Any"];
 
 /// Options for SDL export
 #[derive(Debug, Copy, Clone)]
@@ -362,11 +361,9 @@ impl Registry {
                 requires_scopes,
                 ..
             } => {
-                let mut export_scalar = !SYSTEM_SCALARS.contains(&name.as_str());
-                if options.federation && FEDERATION_SCALARS.contains(&name.as_str()) {
-                    export_scalar = false;
-                }
-                if export_scalar {
+                // the federation scalar `_Any` is left out by name in `export_sdl`;
+                // every other scalar, a user's `Any` included, is part of the schema
+                if !SYSTEM_SCALARS.contains(&name.as_str()) {
                     if let Some(description) = description {
                         write_description(sdl, options, 0, description);
                     }
